@@ -636,3 +636,23 @@ pub fn parse_hex_color(lexer: VLexer, options: &crate::Options<'_>) -> (Result<c
 
 /// The serializer type, nameable from harness stubs
 pub type VSerializer<'a> = crate::serializer::Serializer<'a>;
+
+pub fn hex_char_for(n: u32) -> char {
+    crate::utils::hex_char_for(n)
+}
+
+pub fn as_hex(c: char) -> u32 {
+    crate::utils::as_hex(c)
+}
+
+pub fn is_name(c: char) -> bool {
+    crate::utils::is_name(c)
+}
+
+pub fn is_name_start(c: char) -> bool {
+    crate::utils::is_name_start(c)
+}
+
+pub fn opposite_bracket(c: char) -> char {
+    crate::utils::opposite_bracket(c)
+}
